@@ -34,6 +34,14 @@ func init() {
 	execs["ltoi"] = func(a []string) string {
 		return resInt(tensor.Ltoi(tensor.Shape(ints(a[0])), ints(a[1]), ints(a[2])...))
 	}
+	// itol i shape strides : the inverse index arithmetic (uses divmod: assembly or pure Go)
+	execs["itol"] = func(a []string) string {
+		c, err := tensor.Itol(atoi(a[0]), tensor.Shape(ints(a[1])), ints(a[2]))
+		if err != nil {
+			return "err:" + fints(c)
+		}
+		return "ok:" + fints(c)
+	}
 	execs["cstr"] = func(a []string) string {
 		return "ok:" + fints(tensor.Shape(ints(a[0])).CalcStrides())
 	}
@@ -111,6 +119,18 @@ func genC01(tier string, r *rng, emit func(string)) {
 	for _, sh := range shapes {
 		emit("cstr " + fints(sh))
 		emit("cstrcm " + fints(sh))
+	}
+	// the inverse index arithmetic on every rank of shapes with non-power-of-two extents, default
+	// and column-major strides, plus out-of-range ranks
+	for _, sh := range [][]int{{5}, {2, 3}, {3, 5}, {2, 3, 4}, {3, 1, 5}, {2, 3, 5, 2}, {1, 1}, {7, 1}} {
+		for _, st := range [][]int{tensor.Shape(sh).CalcStrides(), tensor.Shape(sh).CalcStridesColMajor()} {
+			if len(st) != len(sh) {
+				continue
+			}
+			for i := -1; i <= prod(sh)+1; i++ {
+				emit(fmt.Sprintf("itol %d %s %s", i, fints(sh), fints(st)))
+			}
+		}
 	}
 	for si, sh := range shapes {
 		rm := tensor.Shape(sh).CalcStrides()
